@@ -540,6 +540,7 @@ type c02Pool struct {
 	// confirmed counts confirmed worker deaths (crash, stack overflow, timeout, …)
 	confirmed int
 	skipped   int
+	bigStack  map[string]bool
 }
 
 func (pl *c02Pool) get() *c02Proc {
@@ -612,9 +613,20 @@ func (pl *c02Pool) Ask(rq *c02Req) c02Outcome {
 	rq2 := *rq
 	rq2.CPUms *= 2
 	if o.Kind == "stack-overflow" {
-		env = append(env, "C02_MAXSTACK=1000000000")
-		rq2.CPUms = max(rq2.CPUms, 120000)
 		rq2.Runs = 1
+		// the first overflow of every recursion cycle is confirmed with Go's default 1 GB
+		// limit (thirty CPU seconds); later ones with the same cycle with the small limit
+		pl.mu.Lock()
+		if pl.bigStack == nil {
+			pl.bigStack = map[string]bool{}
+		}
+		first := !pl.bigStack[o.Sig]
+		pl.bigStack[o.Sig] = true
+		pl.mu.Unlock()
+		if first || o.Sig == "" {
+			env = append(env, "C02_MAXSTACK=1000000000")
+			rq2.CPUms = max(rq2.CPUms, 120000)
+		}
 	}
 	p2, err := c02Start(fmt.Sprintf("%s/w%d", pl.dir, k), env...)
 	if err != nil {
